@@ -19,6 +19,11 @@ def obligations(tier):
                       clause='the stream of one worker is never perturbed by another', remove=('generate_seed', 'xorshift128'), stubs=('sym_rng_uf.c',)))
     for d in ((1, 2) if not th else (1, 2, 3)):
         obs.append(Ob(id=f'rng_repro/d{d}', harness='C06/rng_repro.c', tus=TN, defs={'HP_D': d}, engine='bits', unwind=6, timeout=to, clause='bit-identical between repeated runs', kf='C06_zero_state'))
+    from . import C05 as _C05
+    for (it, t) in ([(1, 1), (2, 2), (2, 1)] if not th else [(1, 1), (2, 2), (2, 1), (3, 3), (4, 2)]):
+        obs.append(Ob(id=f'caller_stream/bootstrap/it{it}t{t}', harness='C06/caller_stream.c', tus=_C05.T, defs={'HP_IT': it, 'HP_T': t}, engine='bits', unwind=12, timeout=to,
+                      clause='no worker (and no inline work) perturbs the calling thread\'s seeded stream', remove=('MLR', 'MLRPredictY', 'PLS', 'PLSYPredictorAllLV', 'LDA', 'LDAPrediction', 'EPLSRandomGroupCVModel', 'EPLSLOOModel_', 'YScrambling'),
+                      ignore_props=('random_kfold_group_generator.unwind',), object_bits=11))
     # thread-count independence of the validation structure: the real drivers with tagging learner stubs (harness shared with C05);
     # the stub's prediction is a function of the test object only, so the N-thread result equals the sequential one iff every object is
     # predicted by a model trained on exactly the other objects of its fold, for every thread count
